@@ -65,6 +65,28 @@ pub fn palettes(r: &mut Rng, n_random: usize) -> Vec<(String, Palette)> {
         };
     }
     v.push(("extreme".into(), Palette(ext)));
+    // near-copies of a built-in palette: every slot keeps one or two channels of VGA / WIN10 (a shortcut keyed on "is this the
+    // built-in palette" must compare whole entries), and VGA with a single slot replaced
+    let mut near = VGA.0;
+    for (i, e) in near.iter_mut().enumerate() {
+        *e = match i % 3 {
+            0 => RgbColor(e.r(), e.g(), e.b() ^ 0x5f),
+            1 => RgbColor(e.r() ^ 0x33, e.g(), e.b()),
+            _ => RgbColor(e.r(), e.g() ^ 0x77, e.b() ^ 0x11),
+        };
+    }
+    v.push(("near_vga".into(), Palette(near)));
+    let mut one = VGA.0;
+    one[4] = RgbColor(0, 0, 215);
+    one[3] = RgbColor(255, 255, 0);
+    v.push(("vga_two_slots".into(), Palette(one)));
+    let mut near10 = WIN10_CONSOLE.0;
+    for (i, e) in near10.iter_mut().enumerate() {
+        if i % 2 == 1 {
+            *e = RgbColor(e.b(), e.g(), e.r());
+        }
+    }
+    v.push(("near_win10".into(), Palette(near10)));
     for k in 0..n_random {
         let mut p = [RgbColor(0, 0, 0); 16];
         for e in p.iter_mut() {
